@@ -1,7 +1,7 @@
 """C04 — apply commits exactly the approved deltas, once, with version discipline.
 
 (a) `apply_changes` against a recording store double driven by a generated fault script (reference model of the
-    documented contract);  (b) histories of real turns (kill switch toggled, store faults per turn, deltas injected
+    documented contract);  (a') several applies on one state / ctx / live config object;  (b) histories of real turns (kill switch toggled, store faults per turn, deltas injected
     through the orchestrator's t3_deliberate patch point) with per-turn invariants.
 """
 from __future__ import annotations
@@ -17,19 +17,35 @@ from harness.runner import Sub, Violation, run_hypothesis, digest
 from harness import world, observe
 
 LEVEL = "exploration"
-RULE = ("(a) Hypothesis-generated approved lists (0-8 deltas) x store behaviour scripts (batch returns a result of "
-        "several shapes or raises one of 6 exception types; per-delta raise pattern; store without batch API; no "
-        "store) x start version x turn id x cadence x cache-bust mode/namespaces with a preloaded CacheManager; "
+RULE = ("(a) Hypothesis-generated approved lists (0-8 deltas incl. duplicate targets and values outside the weight range, or 64-2049 "
+        "deltas; list / tuple / None) x store behaviour scripts (batch returns a result of several shapes, empties the list it was handed, "
+        "or raises one of 10 exception types incl. AttributeError/NotImplementedError/StopIteration; per-delta result/raise pattern; falsy "
+        "store object; store without batch API; no store) x start version x turn id (ints, numeric strings, beyond the cadence, negative, "
+        "padded, non-numeric, absent) x cadence 1..2^31 x cache-bust mode/namespaces/t4.cache.enabled with a CacheManager preloaded in the "
+        "configured namespace and look-alikes (prefix, extension, other case) x t4.weight_min/max x perf.snapshots section; "
         "non-trivial = batch raises with >=2 deltas, or on-apply busting with preloaded namespaces. "
-        "(b) histories of 3-8 real turns with per-turn kill switch, store fault and injected proposed deltas; "
+        "(a') sequences of 2-6 applies on ONE state / store / cache manager with the settings of each step reaching the config by "
+        "in-place edit of one live config object, by replacing its t4 section, or by a fresh config; ctx reused or fresh; snapshot directory, "
+        "agent, store kind, manager (kept/new/dropped, refilled) and state version (re-set externally) changing between steps; non-trivial = "
+        "cadence / bust mode / namespaces / directory differ between two steps of a long-lived config. "
+        "(b) histories of 3-8 real turns (one live config edited in place or a fresh one per turn; one Orchestrator object or one per turn) "
+        "with per-turn kill switch, cadence, bust mode, t4.cache.enabled, store fault, injected proposed deltas (up to 260 with the churn cap "
+        "raised), turn ids numbered from an offset / repeated / non-numeric, start version, own or orchestrator-made cache manager; "
         "non-trivial = history with >=1 store failure on a non-empty approved list and >=1 kill-switch toggle. "
         "Distinct = digest of the case/history.")
 ASSUMPTIONS = ["store double is all-or-nothing: a batch call that returns (whatever it returns) applied everything, a "
                "batch call that raises applied nothing",
-               "snapshot cadence rule as documented in apply.py: int(turn) % n == 0, non-numeric turn ids count as 0"]
+               "snapshot cadence rule as documented in apply.py: int(turn) % n == 0, non-numeric turn ids count as 0",
+               "ctx exposes the validated configuration as both ctx.cfg and ctx.config (apply.py reads only ctx.config), as scripts/chat.py does",
+               "with nothing approved the store may or may not be handed an empty batch; applied/clamps COUNTS are not part of the property",
+               "store errors = Exception subclasses (KeyboardInterrupt/SystemExit are not swallowed by design)"]
 
 EXC = {"ValueError": ValueError, "KeyError": KeyError, "RuntimeError": RuntimeError, "OSError": OSError,
-       "TypeError": TypeError, "Custom": type("CustomStoreError", (Exception,), {})}
+       "TypeError": TypeError, "Custom": type("CustomStoreError", (Exception,), {}),
+       # errors a caller could mistake for "this store has no batch API" / "iteration finished"
+       "AttributeError": AttributeError, "NotImplementedError": NotImplementedError, "StopIteration": StopIteration,
+       "AssertionError": AssertionError}
+_EXC_NAMES = sorted(EXC)
 
 
 def _pd(d):
@@ -42,44 +58,73 @@ def _pd(d):
 _DELTAS = st.lists(st.fixed_dictionaries({"k": st.sampled_from(["node", "edge"]),
                                           # incl. ids that are prefixes of one another (tuple order != order of the joined canonical key)
                                           "id": st.sampled_from(["n:a", "n:b", "e:a|r|b", "n:é", "n:c", "n:1", "n:10", "n:2", "n:a-1", "n:a.b"]),
-                                          "v": st.sampled_from([0.1, -0.2, 0.3, 1e-9, 0.0])}), max_size=8,
+                                          "v": st.sampled_from([0.1, -0.2, 0.3, 1e-9, 0.0, 0.1, -0.2, 1.5, -2.0])}), max_size=8,
                    unique_by=lambda d: (d["k"], d["id"]))
+# t4.weight_min/weight_max bound WEIGHTS inside the store; the approved deltas (increments) are handed over as they are
+_WRANGE = st.sampled_from([None, None, None, [-0.05, 0.05], [0.0, 1.0], [-1.0, 0.0], [0.2, 0.25]])
+# the same target several times (apply_changes hands over what it is given: merging duplicates is the meta-filter's business)
+_DUP_DELTAS = st.lists(st.fixed_dictionaries({"k": st.sampled_from(["node", "edge"]), "id": st.sampled_from(["n:a", "n:b", "n:1", "n:10"]),
+                                              "v": st.sampled_from([0.1, -0.2, 0.1])}), min_size=2, max_size=8)
 _RESULTS = st.sampled_from([{"edits": 3, "clamps": 1}, {"edits": 2, "clamped": 2}, {}, None, 7, "ok", [1, 2],
                             {"edits": "3"}, {"edits": 1.0, "clamps": 0.0}])
 _ODD_RESULTS = st.sampled_from([{"edits": None}, {"edits": "n/a"}, {"edits": 1, "clamps": None}])
 
 
+# turn ids: ints / numeric strings around every cadence boundary, beyond it, negative, padded; non-numeric ones count as turn 0
+_TURNS = st.one_of(st.integers(0, 12), st.integers(0, 12).map(str),
+                   st.sampled_from(["demo-1", "", None, 3.9, "3.9", 20, 100, 999, 1000, 1001, "1000", 2000, 2 ** 31, 2 ** 31 + 1, -1, -5,
+                                    "-3", " 6 ", "06", True, "absent"]))
+# cache namespaces living in the manager: the configured one and look-alikes (prefix of it, extension of it, other case)
+_NS_POOL = ["t2:semantic", "t2:semantic", "t2:semantic", "x", "y", "t2", "t2:semantic:v2", "T2:SEMANTIC"]
+_EVERY = st.sampled_from([1, 1, 2, 3, 5, 7, 10, 1000, 2 ** 31])
+
+
 @st.composite
 def _many_deltas(draw):
     """Long approved lists (beyond any plausible per-call chunk size): one batch means ONE call however long the list is."""
-    n = draw(st.sampled_from([64, 65, 100, 129, 150, 257, 300]))
+    n = draw(st.sampled_from([64, 65, 100, 129, 150, 257, 300, 1000, 1025, 2049]))
     vals = [0.1, -0.2, 0.3, 1e-9]
     return [{"k": "node" if i % 3 else "edge", "id": f"n:{i:03d}", "v": vals[i % 4]} for i in range(n)]
 
 
 @st.composite
 def apply_cases(draw):
-    deltas = draw(st.one_of(_DELTAS, _DELTAS, _DELTAS, _DELTAS, _many_deltas()))
+    deltas = draw(st.one_of(_DELTAS, _DELTAS, _DELTAS, _DELTAS, _DUP_DELTAS, _many_deltas()))
     store_kind = draw(st.sampled_from(["ok", "ok", "ok", "ok", "no_fn", "none"]))
     batch = draw(st.one_of(st.fixed_dictionaries({"ret": _RESULTS}), st.fixed_dictionaries({"ret": _RESULTS}),
                            st.fixed_dictionaries({"ret": _ODD_RESULTS}),
-                           st.fixed_dictionaries({"raise": st.sampled_from(sorted(EXC))}),
-                           st.fixed_dictionaries({"raise": st.sampled_from(sorted(EXC))})))
-    singles = [draw(st.one_of(st.fixed_dictionaries({"ret": _RESULTS}),
-                              st.fixed_dictionaries({"raise": st.sampled_from(sorted(EXC))}))) for _ in deltas[:8]]
+                           # a store that consumes (empties) the list it was handed: the caller's approved list is not its to edit
+                           st.fixed_dictionaries({"ret": _RESULTS, "drain": st.just(True)}),
+                           st.fixed_dictionaries({"raise": st.sampled_from(_EXC_NAMES)}),
+                           st.fixed_dictionaries({"raise": st.sampled_from(_EXC_NAMES)})))
+    singles = [draw(st.one_of(st.fixed_dictionaries({"ret": _RESULTS}), st.fixed_dictionaries({"ret": _ODD_RESULTS}),
+                              st.fixed_dictionaries({"raise": st.sampled_from(_EXC_NAMES)}),
+                              st.fixed_dictionaries({"raise": st.sampled_from(_EXC_NAMES)}))) for _ in deltas[:8]]
     singles = [singles[i % len(singles)] for i in range(len(deltas))] if singles else []
-    version = draw(st.sampled_from([None, "0", "5", "41", "abc", 7, ""]))
-    turn = draw(st.one_of(st.integers(0, 12), st.integers(0, 12).map(str), st.sampled_from(["demo-1", "", None, 3.9])))
-    every = draw(st.sampled_from([1, 1, 2, 3, 5]))
+    version = draw(st.sampled_from([None, "0", "5", "41", "abc", 7, "", "9", "99", "-1"]))
+    turn = draw(_TURNS)
+    every = draw(_EVERY)
     bust = draw(st.sampled_from(["none", "on-apply", "on-apply"]))
-    namespaces = draw(st.sampled_from([None, ["t2:semantic"], ["t2:semantic"], []]))  # validator admits only t2:semantic
-    preload = draw(st.dictionaries(st.sampled_from(["t2:semantic", "x", "y", "z"]), st.integers(1, 3), max_size=4))
+    # validator admits only t2:semantic (any number of times)
+    namespaces = draw(st.sampled_from([None, ["t2:semantic"], ["t2:semantic"], [], ["t2:semantic", "t2:semantic"]]))
+    approved_shape = draw(st.sampled_from(["list", "list", "list", "tuple", "none-if-empty"]))
+    store_falsy = draw(st.sampled_from([False, False, False, True]))
+    wrange = draw(_WRANGE)
+    # perf.snapshots.* configures the (unwired) compressed/delta writer, not apply: closed gate with anything below it, or open gate
+    # with neutral values (same cadence) -- apply behaves as without the section
+    perf = draw(st.sampled_from([None, None, None, "closed", "open-neutral"]))
+    if perf == "closed":
+        perf = {"enabled": False, "snapshots": {"compression": draw(st.sampled_from(["none", "zstd"])), "level": draw(st.sampled_from([1, 3, 19])),
+                                                "delta_mode": draw(st.booleans()), "every_n_turns": draw(st.sampled_from([1, 2, 3, 7]))}}
+    elif perf == "open-neutral":
+        perf = {"enabled": True, "snapshots": {"compression": "none", "delta_mode": False, "every_n_turns": every}}
+    preload = draw(st.dictionaries(st.sampled_from(_NS_POOL), st.integers(1, 3), max_size=4))
     cm_kind = draw(st.sampled_from(["real", "real", "real", "raising", "absent"]))
     state_shape = draw(st.sampled_from(["dict", "dict", "attr"]))
     # t4.cache.enabled only decides whether the orchestrator CREATES a manager; one that is attached to the state is
     # read and written by T2 regardless, so busting must not depend on the flag
     cache_enabled = draw(st.sampled_from([None, None, True, False, False]))
-    return {"cache_enabled": cache_enabled, "deltas": deltas, "store": store_kind, "batch": batch, "singles": singles, "version": version, "turn": turn,
+    return {"wrange": wrange, "perf": perf, "store_falsy": store_falsy, "approved_shape": approved_shape, "cache_enabled": cache_enabled, "deltas": deltas, "store": store_kind, "batch": batch, "singles": singles, "version": version, "turn": turn,
             "every": every, "bust": bust, "namespaces": namespaces, "preload": preload, "cm": cm_kind, "state": state_shape}
 
 
@@ -94,6 +139,7 @@ class RecStore:
             self.apply_deltas = self._apply
 
     def _apply(self, gid, deltas):
+        args_list = deltas
         deltas = list(deltas)
         self.calls.append((gid, deltas))
         if len(self.calls) == 1:
@@ -104,7 +150,16 @@ class RecStore:
             beh = self._case["singles"][i] if i < len(self._case["singles"]) else {"ret": {}}
         if "raise" in beh:
             raise EXC[beh["raise"]]("injected store failure")
+        if beh.get("drain") and isinstance(args_list, list):
+            del args_list[:]
         return copy.deepcopy(beh["ret"])
+
+
+class EmptyLookingRecStore(RecStore):
+    """A store object that is falsy (a container type reporting len 0): still THE store."""
+
+    def __len__(self):
+        return 0
 
 
 class RaisingCM:
@@ -139,13 +194,19 @@ def check_apply(case, rec=None):
             t4over["cache"] = {"namespaces": list(case["namespaces"])}
         if case.get("cache_enabled") is not None:
             t4over.setdefault("cache", {})["enabled"] = bool(case["cache_enabled"])
-        cfg = world.validated_cfg({"t4": t4over})
+        if case.get("wrange"):
+            t4over["weight_min"], t4over["weight_max"] = case["wrange"]
+        cfg = world.validated_cfg({"t4": t4over, **({"perf": case["perf"]} if case.get("perf") else {})})
         ctx = world.make_ctx(cfg, agent="A", turn_id=case["turn"])
+        if case["turn"] == "absent":
+            del ctx.turn_id
         deltas = [_pd(d) for d in case["deltas"]]
-        t4res = SimpleNamespace(approved_deltas=list(deltas), rejected_ops=[], reasons=[], metrics={})
+        shape = case.get("approved_shape", "list")
+        handed = tuple(deltas) if shape == "tuple" else (None if (shape == "none-if-empty" and not deltas) else list(deltas))
+        t4res = SimpleNamespace(approved_deltas=handed, rejected_ops=[], reasons=[], metrics={})
         store = None
         if case["store"] == "ok":
-            store = RecStore(case)
+            store = EmptyLookingRecStore(case) if case.get("store_falsy") else RecStore(case)
         elif case["store"] == "no_fn":
             store = RecStore(case, with_fn=False)
         cm = None
@@ -173,13 +234,22 @@ def check_apply(case, rec=None):
             if "raise" in case["batch"]:
                 want += [("g:surface", [d]) for d in deltas]
             got = store.calls
+            if any(g[0] != "g:surface" for g in got):
+                raise Violation(f"store called for graph {[g[0] for g in got][:4]}, the surface graph is 'g:surface'", case, "store-gid")
+            if not deltas and not got:
+                got = [("g:surface", [])]  # nothing approved: whether the store sees an empty batch is free
             if len(got) >= 1 and got[0][1] != deltas:
-                raise Violation(f"batch call received {got[0][1]} instead of the approved deltas in order", case, "batch-content")
+                raise Violation(f"batch call received {len(got[0][1])} deltas {[(x.target_kind, x.target_id, x.delta) for x in got[0][1][:6]]}... instead of the "
+                                f"{len(deltas)} approved {[(x.target_kind, x.target_id, x.delta) for x in deltas[:6]]}... in order", case, "batch-content")
             if len(got) != len(want) or any(g[1] != w[1] for g, w in zip(got, want)):
                 if "raise" not in case["batch"] and len(got) > 1:
                     raise Violation(f"store batch call succeeded (returned {case['batch']['ret']!r}) but {len(got) - 1} more "
                                     f"calls followed: deltas applied twice", case, "double-apply")
                 raise Violation(f"store calls {[(g, len(d)) for g, d in got]} != expected {[(g, len(d)) for g, d in want]}", case, "store-calls")
+        # --- the meta-filter's result still lists what it approved (the orchestrator reads it again after apply: health, turn record)
+        if handed is not None and (len(t4res.approved_deltas or ()) != len(deltas) or any(a is not b for a, b in zip(t4res.approved_deltas, deltas))):
+            raise Violation(f"the approved list of the meta-filter result was edited during apply: {len(deltas)} -> "
+                            f"{len(t4res.approved_deltas or ())} deltas", case, "approved-edited")
         # --- version discipline
         newv = state.get("version_etag") if isinstance(state, dict) else getattr(state, "version_etag", None)
         wantv = ref_version(case["version"])
@@ -194,13 +264,17 @@ def check_apply(case, rec=None):
         if should:
             if os.path.realpath(res.snapshot_path) != os.path.realpath(os.path.join(snapdir, files[0])) or len(files) != 1:
                 raise Violation(f"snapshot_path {res.snapshot_path!r} vs files {files}", case, "snapshot-path")
-            body = json.load(open(os.path.join(snapdir, files[0]), encoding="utf-8"))
+            with open(os.path.join(snapdir, files[0]), encoding="utf-8") as fh:
+                body = json.load(fh)
             if str(body.get("version_etag")) != wantv:
                 raise Violation(f"snapshot carries version {body.get('version_etag')!r}, state is at {wantv!r}", case, "snapshot-version")
+            if body.get("turn") != ref_turn(case["turn"]):
+                raise Violation(f"snapshot written on turn {case['turn']!r} says turn {body.get('turn')!r}", case, "snapshot-turn")
             sd_ = body.get("deltas")
             want_d = [(d.target_kind, d.target_id, d.attr, d.delta) for d in deltas]
             got_d = [(x.get("target_kind"), x.get("target_id"), x.get("attr"), x.get("delta")) for x in (sd_ or [])]
-            if case["store"] != "none" and got_d != want_d:  # without a store nothing was applied: the body lists no deltas
+            # without a store nothing was applied: the body lists no deltas; a store that empties the list it is handed: not compared
+            if case["store"] != "none" and not (case["store"] == "ok" and case["batch"].get("drain")) and got_d != want_d:
                 raise Violation(f"snapshot deltas {got_d} != approved {want_d}", case, "snapshot-deltas")
         # --- cache invalidation
         if case["cm"] == "real":
@@ -221,9 +295,20 @@ def check_apply(case, rec=None):
         if rec is not None:
             nt = (case["store"] == "ok" and "raise" in case["batch"] and len(deltas) >= 2) or \
                  (case["bust"] == "on-apply" and case["cm"] == "real" and bool(case["preload"]) and case["store"] == "ok")
+            keys = [(d["k"], d["id"]) for d in case["deltas"]]
             labels = [f"store={case['store']}", "batch=" + ("raise" if "raise" in case["batch"] else "ret"), f"bust={case['bust']}",
                       "deltas>=64" if len(deltas) >= 64 else "deltas<64",
-                      f"cm={case['cm']}"] + (["snapshot"] if should else [])
+                      f"cm={case['cm']}"] + (["snapshot"] if should else []) + \
+                     (["deltas>1024"] if len(deltas) > 1024 else []) + (["dup-targets"] if len(set(keys)) < len(keys) else []) + \
+                     (["store-drains-list"] if case["batch"].get("drain") and case["store"] == "ok" else []) + \
+                     (["every>=1000"] if case["every"] >= 1000 else []) + \
+                     (["turn>=every>1"] if (case["every"] > 1 and ref_turn(case["turn"]) >= case["every"]) else []) + \
+                     ([f"approved={shape}"] if shape != "list" else []) + \
+                     (["store-falsy"] if case.get("store_falsy") and case["store"] == "ok" else []) + \
+                     (["delta-outside-weight-range"] if any(not ((case.get("wrange") or [-1.0, 1.0])[0] <= d["v"] <= (case.get("wrange") or [-1.0, 1.0])[1])
+                                                            for d in case["deltas"]) else []) + \
+                     ([f"perf.snapshots={'closed' if not case['perf']['enabled'] else 'open-neutral'}"] if case.get("perf") else []) + \
+                     (["batch-exc=lookalike"] if case["batch"].get("raise") in ("AttributeError", "NotImplementedError", "StopIteration") else [])
             rec.case(nontrivial=nt, dig=digest(case) if nt else None, labels=labels,
                      sample={k: (case[k][:4] if k in ("deltas", "singles") else case[k])
                              for k in ("deltas", "batch", "singles", "version", "turn", "every", "bust")} if nt else None)
@@ -231,6 +316,265 @@ def check_apply(case, rec=None):
 
 def sub_apply(rec, seed, shard, nshards, n=400, shrink=True):
     run_hypothesis(rec, seed, apply_cases(), lambda c: check_apply(c, rec), max_examples=n, shrink=shrink, name="apply")
+
+
+# ---------------------------------------------------------------- (a') several applies on ONE state / ctx / config object
+
+_SEQ_DELTAS = st.one_of(_DELTAS, _DELTAS, _DUP_DELTAS)
+_SEQ_TURNS = st.one_of(st.integers(0, 12), st.integers(0, 12), st.integers(0, 12).map(str), st.sampled_from(["demo-1", 1000, 2000, "absent"]))
+_BEH = st.one_of(st.fixed_dictionaries({"ret": _RESULTS}), st.fixed_dictionaries({"ret": _RESULTS}),
+                 st.fixed_dictionaries({"raise": st.sampled_from(_EXC_NAMES)}))
+
+
+@st.composite
+def seq_cases(draw):
+    steps = []
+    for _ in range(draw(st.integers(2, 6))):
+        steps.append({
+            "deltas": draw(_SEQ_DELTAS), "batch": draw(_BEH), "singles": draw(st.lists(_BEH, min_size=8, max_size=8)),
+            "turn": draw(_SEQ_TURNS), "agent": draw(st.sampled_from(["A", "A", "B"])),
+            "every": draw(st.sampled_from([1, 1, 2, 3, 5, 1000])), "bust": draw(st.sampled_from(["none", "on-apply", "on-apply"])),
+            "namespaces": draw(st.sampled_from([None, ["t2:semantic"], ["t2:semantic"], []])),
+            "cache_enabled": draw(st.sampled_from([None, None, True, False])),
+            "wrange": draw(_WRANGE),
+            "dir": draw(st.sampled_from([0, 0, 0, 1])),                       # which of two snapshot directories is configured
+            "store": draw(st.sampled_from(["ok", "ok", "ok", "ok", "ok", "no_fn", "none"])),
+            "cm": draw(st.sampled_from(["keep", "keep", "keep", "keep", "new", "drop"])),
+            "refill": draw(st.dictionaries(st.sampled_from(_NS_POOL), st.integers(1, 3), max_size=3)),
+            # something else (boot loader, operator) re-sets the state version between two applies
+            "set_version": draw(st.sampled_from(["keep"] * 7 + ["0", "9", "abc", 41])),
+        })
+    return {"steps": steps,
+            "cfg_mode": draw(st.sampled_from(["mutate", "mutate", "replace_t4", "fresh"])),   # how the settings of a step reach the config
+            "ctx_mode": draw(st.sampled_from(["reuse", "reuse", "fresh"])),
+            "state": draw(st.sampled_from(["dict", "dict", "attr"])),
+            "version": draw(st.sampled_from([None, "0", "8", "98", "abc"])),
+            "cm0": draw(st.sampled_from(["real", "real", "absent"])),
+            "store_falsy": draw(st.sampled_from([False, False, False, True]))}
+
+
+class SeqStore:
+    """Recording all-or-nothing store double; behaviour script of the current step set by begin()."""
+
+    def __init__(self):
+        self.calls = []
+        self.step = None
+
+    def begin(self, step):
+        self.calls = []
+        self.step = step
+
+    def apply_deltas(self, gid, deltas):
+        self.calls.append((gid, list(deltas)))
+        k = len(self.calls)
+        beh = self.step["batch"] if k == 1 else self.step["singles"][(k - 2) % len(self.step["singles"])]
+        if "raise" in beh:
+            raise EXC[beh["raise"]]("injected store failure")
+        return copy.deepcopy(beh["ret"])
+
+
+class EmptyLookingSeqStore(SeqStore):
+    def __len__(self):
+        return 0
+
+
+class NoFnStore:
+    pass
+
+
+def _dir_view(d):
+    out = {}
+    if os.path.isdir(d):
+        for f in sorted(os.listdir(d)):
+            p = os.path.join(d, f)
+            with open(p, "rb") as fh:
+                out[f] = (os.stat(p).st_mtime_ns, fh.read())
+    return out
+
+
+def _t4_overrides(step, dirs):
+    o = {"snapshot_every_n_turns": step["every"], "snapshot_dir": dirs[step["dir"]], "cache_bust_mode": step["bust"]}
+    cache = {}
+    if step["namespaces"] is not None:
+        cache["namespaces"] = list(step["namespaces"])
+    if step.get("cache_enabled") is not None:
+        cache["enabled"] = bool(step["cache_enabled"])
+    if cache:
+        o["cache"] = cache
+    if step.get("wrange"):
+        o["weight_min"], o["weight_max"] = step["wrange"]
+    return o
+
+
+def check_sequence(case, rec=None):
+    from clematis.engine.apply import apply_changes
+    from clematis.engine.cache import CacheManager
+
+    def sget(state, k):
+        return state.get(k) if isinstance(state, dict) else getattr(state, k, None)
+
+    def sset(state, k, v):
+        if isinstance(state, dict):
+            state[k] = v
+        else:
+            setattr(state, k, v)
+
+    with world.sandbox() as root:
+        dirs = [os.path.join(root, "snap"), os.path.join(root, "snap2")]
+        steps = case["steps"]
+        cfg = world.validated_cfg({"t4": _t4_overrides(steps[0], dirs)})
+        ctx = world.make_ctx(cfg, agent="A", turn_id=0)
+        store = EmptyLookingSeqStore() if case.get("store_falsy") else SeqStore()
+        sd = {"store": store}
+        if case["version"] is not None:
+            sd["version_etag"] = case["version"]
+        state = sd if case["state"] == "dict" else SimpleNamespace(**sd)
+        model = {}  # live cache entries of the attached manager: namespace -> set of keys
+        cm = None
+        if case["cm0"] == "real":
+            cm = CacheManager(max_entries=256, ttl_sec=600)
+            sset(state, "_cache_mgr", cm)
+        labels = set()
+        written = set()
+        for si, step in enumerate(steps):
+            at = f"step {si}"
+            # --- the settings of this step reach the config the way a long-lived embedding application would do it
+            fresh = world.validated_cfg({"t4": _t4_overrides(step, dirs)})
+            if si > 0:
+                if case["cfg_mode"] == "fresh":
+                    cfg = fresh
+                elif case["cfg_mode"] == "replace_t4":
+                    cfg["t4"] = fresh["t4"]
+                else:  # edit the live mapping in place (values in validated form)
+                    for k in ("snapshot_every_n_turns", "snapshot_dir", "cache_bust_mode", "weight_min", "weight_max"):
+                        cfg["t4"][k] = fresh["t4"][k]
+                    for k in ("namespaces", "enabled"):
+                        cfg["t4"]["cache"][k] = fresh["t4"]["cache"][k]
+                prev = steps[si - 1]
+                labels.update((["every-changes"] if prev["every"] != step["every"] else []) + (["bust-changes"] if prev["bust"] != step["bust"] else []) +
+                              (["dir-switch"] if prev["dir"] != step["dir"] else []) + (["store-switch"] if prev["store"] != step["store"] else []) +
+                              (["namespaces-change"] if (prev["namespaces"] == []) != (step["namespaces"] == []) else []))
+            if case["ctx_mode"] == "fresh" or si == 0:
+                ctx = world.make_ctx(cfg, agent=step["agent"], turn_id=step["turn"])
+            else:
+                ctx.cfg = ctx.config = cfg
+                ctx.agent_id = step["agent"]
+                ctx.turn_id = step["turn"]
+            if step["turn"] == "absent" and hasattr(ctx, "turn_id"):
+                del ctx.turn_id
+            # --- state edits between applies
+            if step["store"] == "ok":
+                sset(state, "store", store)
+            elif step["store"] == "no_fn":
+                sset(state, "store", NoFnStore())
+            else:
+                sset(state, "store", None)
+            if step["cm"] == "new":
+                cm = CacheManager(max_entries=256, ttl_sec=600)
+                model = {}
+                sset(state, "_cache_mgr", cm)
+                labels.add("cm-new")
+            elif step["cm"] == "drop" and cm is not None:
+                cm = None
+                model = {}
+                if isinstance(state, dict):
+                    state.pop("_cache_mgr", None)
+                else:
+                    state._cache_mgr = None
+                labels.add("cm-drop")
+            if cm is not None:
+                for ns, n in sorted(step["refill"].items()):
+                    for i in range(n):
+                        cm.set(ns, ("k", si, i), i)
+                        model.setdefault(ns, set()).add(("k", si, i))
+            if step["set_version"] != "keep":
+                sset(state, "version_etag", step["set_version"])
+                labels.add("version-set-externally")
+            v0 = sget(state, "version_etag")
+            before = [_dir_view(d) for d in dirs]
+            deltas = [_pd(d) for d in step["deltas"]]
+            t4res = SimpleNamespace(approved_deltas=list(deltas), rejected_ops=[], reasons=[], metrics={})
+            store.begin(step)
+            try:
+                res = apply_changes(ctx, state, t4res)
+            except Exception as e:
+                raise Violation(f"{at}: apply_changes raised {type(e).__name__}: {e}", case, "raises")
+            # --- store calls
+            want = []
+            if step["store"] == "ok":
+                want = [deltas] + ([[d] for d in deltas] if "raise" in step["batch"] else [])
+            got = [c[1] for c in store.calls]
+            if any(c[0] != "g:surface" for c in store.calls):
+                raise Violation(f"{at}: store called for graph {[c[0] for c in store.calls][:4]}, the surface graph is 'g:surface'", case, "store-gid")
+            if not deltas and not got and step["store"] == "ok":
+                got = [[]]  # nothing approved: whether the store sees an empty batch is free
+            if got != want:
+                raise Violation(f"{at}: store received calls of sizes {[len(c) for c in got]} "
+                                f"({[[x.target_id for x in c] for c in got][:4]}), expected "
+                                f"{'batch + one call per delta' if len(want) > 1 else ('one batch' if want else 'no call')} of "
+                                f"{[x.target_id for x in deltas]}", case, "store-calls")
+            # --- version
+            wantv = ref_version(v0)
+            v1 = sget(state, "version_etag")
+            if v1 != wantv or res.version_etag != wantv:
+                raise Violation(f"{at}: version {v0!r} -> state {v1!r} / result {res.version_etag!r}, expected {wantv!r}", case, "version")
+            # --- snapshots: exactly the configured directory's file of this agent, exactly on cadence turns
+            should = (ref_turn(step["turn"]) % max(1, step["every"])) == 0
+            after = [_dir_view(d) for d in dirs]
+            fname = f"state_{step['agent']}.json"
+            changed = sorted((di, f) for di in (0, 1) for f in set(before[di]) | set(after[di]) if before[di].get(f) != after[di].get(f))
+            allowed = {(step["dir"], fname), (step["dir"], fname + ".meta")} if should else set()
+            if not set(changed) <= allowed or (should and (step["dir"], fname) not in changed) or should != bool(res.snapshot_path):
+                raise Violation(f"{at}: turn {step['turn']!r} cadence {step['every']} agent {step['agent']} dir#{step['dir']}: snapshot due={should}, "
+                                f"files changed {changed}, snapshot_path={res.snapshot_path!r}", case, "cadence")
+            if should:
+                if os.path.realpath(res.snapshot_path) != os.path.realpath(os.path.join(dirs[step["dir"]], fname)):
+                    raise Violation(f"{at}: snapshot_path {res.snapshot_path!r}, configured directory is dir#{step['dir']}", case, "snapshot-path")
+                body = json.loads(after[step["dir"]][fname][1].decode("utf-8"))
+                if str(body.get("version_etag")) != wantv or body.get("turn") != ref_turn(step["turn"]) or body.get("agent") != step["agent"]:
+                    raise Violation(f"{at}: snapshot body version/turn/agent {body.get('version_etag')!r}/{body.get('turn')!r}/{body.get('agent')!r}, "
+                                    f"expected {wantv!r}/{ref_turn(step['turn'])}/{step['agent']!r}", case, "snapshot-body")
+                got_d = [(x.get("target_kind"), x.get("target_id"), x.get("attr"), x.get("delta")) for x in (body.get("deltas") or [])]
+                want_d = [(d.target_kind, d.target_id, d.attr, d.delta) for d in deltas]
+                if step["store"] != "none" and got_d != want_d:
+                    raise Violation(f"{at}: snapshot deltas {got_d} != approved {want_d}", case, "snapshot-deltas")
+                if (step["dir"], fname) in written:
+                    labels.add("snapshot-rewritten")
+                written.add((step["dir"], fname))
+            # --- cache invalidation against the model of the attached manager
+            if cm is not None:
+                ns_cfg = step["namespaces"] if step["namespaces"] is not None else ["t2:semantic"]
+                do_bust = step["bust"] == "on-apply" and step["store"] == "ok"
+                removed = 0
+                for ns in sorted(model):
+                    keys = sorted(model[ns])
+                    live = [k for k in keys if cm.get(ns, k)[0]]
+                    if do_bust and ns in ns_cfg:
+                        removed += len(keys)
+                        model[ns] = set()
+                        if live:
+                            raise Violation(f"{at}: namespace {ns!r} configured for on-apply busting still holds {len(live)} entries", case, "bust-missed")
+                    elif len(live) != len(keys):
+                        raise Violation(f"{at}: namespace {ns!r} (not configured / busting off) lost {len(keys) - len(live)} entries", case, "bust-overreach")
+                got_inv = int((res.metrics or {}).get("cache_invalidations", 0))
+                if got_inv != removed:
+                    raise Violation(f"{at}: cache_invalidations={got_inv}, {removed} entries were removed", case, "bust-count")
+                if do_bust and removed:
+                    labels.add("busted")
+            if step["store"] == "ok" and "raise" in step["batch"] and len(deltas) >= 2:
+                labels.add("fallback")
+        if rec is not None:
+            nt = case["cfg_mode"] != "fresh" and bool(labels & {"every-changes", "bust-changes", "dir-switch", "namespaces-change"})
+            rec.case(nontrivial=nt, dig=digest(case) if nt else None,
+                     labels=[f"cfg={case['cfg_mode']}", f"ctx={case['ctx_mode']}", f"steps={len(steps)}"] + sorted(labels) +
+                            (["store-falsy"] if case.get("store_falsy") else []),
+                     sample={"cfg_mode": case["cfg_mode"], "ctx_mode": case["ctx_mode"],
+                             "steps": [{k: st_[k] for k in ("turn", "agent", "every", "bust", "dir", "store", "cm")} | {"n_deltas": len(st_["deltas"])}
+                                       for st_ in steps]} if nt else None)
+
+
+def sub_sequence(rec, seed, shard, nshards, n=100, shrink=True):
+    run_hypothesis(rec, seed, seq_cases(), lambda c: check_sequence(c, rec), max_examples=n, shrink=shrink, name="sequence")
 
 
 # ---------------------------------------------------------------- (b) histories through run_turn
@@ -242,30 +586,57 @@ def histories(draw):
     n = draw(st.integers(3, 8))
     every = draw(st.sampled_from([1, 2, 3]))
     bust = draw(st.sampled_from(["none", "on-apply"]))
+    vary = draw(st.sampled_from([False, True, True]))  # cadence / bust mode / cache section change from turn to turn
     turns = []
     for i in range(n):
-        turns.append({
+        t = {
             "agent": draw(st.sampled_from(["A", "B"])),
             "text": draw(st.sampled_from(["apple", "pear", "apple pear", "zzz", ""])),
             "kill": draw(st.sampled_from([False, False, True])),  # True = t4.enabled False
             "deltas": draw(_DELTAS),
             "batch": draw(st.sampled_from([{"ret": {"edits": 1}}, {"ret": {"edits": 1}}, {"ret": None}, {"raise": "RuntimeError"},
-                                           {"raise": "KeyError"}, {"raise": "OSError"}, {"raise": "Custom"}])),
+                                           {"raise": "KeyError"}, {"raise": "OSError"}, {"raise": "Custom"}, {"raise": "AttributeError"}])),
             "singles_raise": draw(st.lists(st.booleans(), min_size=8, max_size=8)),
-            "turn_id": draw(st.sampled_from(["seq", "seq", "seq", "str"])),
-        })
-    return {"graphs": graphs, "every": every, "bust": bust, "turns": turns}
+            # numbered (int / str), the previous turn's id again (agents of one round share it), or a non-numeric label (counts as turn 0)
+            "turn_id": draw(st.sampled_from(["seq", "seq", "seq", "str", "str", "same", "label"])),
+            # more approved deltas than the default churn cap / any plausible per-call chunk (churn cap raised for that turn)
+            "many": draw(st.sampled_from([0] * 11 + [130, 260])),
+        }
+        if vary:
+            t["every"] = draw(st.sampled_from([1, 2, 3, 1000]))
+            t["bust"] = draw(st.sampled_from(["none", "on-apply"]))
+            t["cache_enabled"] = draw(st.sampled_from([True, True, False]))
+        turns.append(t)
+    return {"graphs": graphs, "every": every, "bust": bust, "turns": turns,
+            "cfg_mode": draw(st.sampled_from(["fresh", "mutate", "mutate"])),   # mutate: ONE live config object edited between turns
+            "version": draw(st.sampled_from([None, None, "0", "8", "98", "abc"])),
+            "tid0": draw(st.sampled_from([0, 0, 0, -1, 7, 97, 998])),               # first turn number - 1 (0 -> turns 1, 2, ...)
+            "cm_mode": draw(st.sampled_from(["orch", "own"])),
+            "wrange": draw(_WRANGE),
+            "orch": draw(st.sampled_from(["per-turn", "shared"]))}                # one Orchestrator object for the whole history?              # own: the embedding application attaches its manager
+
+
+def _many(n):
+    return [{"k": "node", "id": f"n:{j:03d}", "v": 0.01 if j % 2 else -0.01} for j in range(n)]
 
 
 def check_history(h, rec=None):
     import clematis.engine.orchestrator as orch
     from clematis.engine.types import Plan, SpeakOp
+    from clematis.engine.cache import CacheManager
 
     world.reset_engine_globals()
     with world.sandbox() as root:
-        eng = observe.Engine({"graphs": h["graphs"], "eps": [], "agents": {"A": ["g1"], "B": ["g1"]}}, root)
+        eng = observe.Engine({"graphs": h["graphs"], "eps": [], "agents": {"A": ["g1"], "B": ["g1"]}, "version": h.get("version")}, root)
         calls_log = []
         cur = {}
+        x_keys = []
+        if h.get("cm_mode", "orch") == "own":
+            own = CacheManager(max_entries=512, ttl_sec=600)
+            for j, ns_ in enumerate(["x", "t2", "t2:semantic:v2"]):
+                own.set(ns_, ("k", j), j)
+                x_keys.append((ns_, ("k", j)))
+            eng.state["_cache_mgr"] = own
 
         def apply_deltas(gid, deltas):
             deltas = list(deltas)
@@ -273,6 +644,9 @@ def check_history(h, rec=None):
             k = len(calls_log)
             t = cur["t"]
             if k == 1:
+                cm_ = eng.state.get("_cache_mgr")
+                cur["cm_at_apply"] = cm_
+                cur["size_at_apply"] = None if cm_ is None else int(cm_.stats["size"])
                 beh = t["batch"]
             else:
                 beh = {"raise": "ValueError"} if t["singles_raise"][(k - 2) % 8] else {"ret": {"edits": 1}}
@@ -285,23 +659,64 @@ def check_history(h, rec=None):
         old_delib = getattr(orch, "t3_deliberate", None)
 
         def delib(ctx, state, bundle):
+            t = cur["t"]
             return Plan(version="t3-plan-v1", ops=[SpeakOp(kind="Speak", intent="ack", topic_labels=[], max_tokens=8)],
-                        deltas=[_pd(d) for d in cur["t"]["deltas"]])
+                        deltas=[_pd(d) for d in (_many(t["many"]) if t.get("many") else t["deltas"])])
+
+        def overrides(t):
+            t4 = {"enabled": not t["kill"], "snapshot_every_n_turns": t.get("every", h["every"]), "cache_bust_mode": t.get("bust", h["bust"]),
+                  "churn_cap_edges": 1000 if t.get("many") else 64}
+            if t.get("cache_enabled") is not None:
+                t4["cache"] = {"enabled": bool(t["cache_enabled"])}
+            if h.get("wrange"):
+                t4["weight_min"], t4["weight_max"] = h["wrange"]
+            return {"t4": t4, "t1": {"cache": {"enabled": False}}, "t2": {"cache": {"enabled": False}}}
 
         orch.t3_deliberate = delib
+        orig_cls = orch.Orchestrator
+        if h.get("orch") == "shared":
+            shared = orig_cls()
+            orch.Orchestrator = lambda: shared  # observe.Engine instantiates per turn through this name
         try:
             store_fail_nonempty = False
             toggles = 0
             prev_kill = None
+            live_cfg = None
+            tid = None
+            labels = set()
+            snapdir = os.path.join(root, "snap")
             for i, t in enumerate(h["turns"], 1):
+                cur.clear()
                 cur["t"] = t
                 del calls_log[:]
-                cfg = eng.cfg({"t4": {"enabled": not t["kill"], "snapshot_every_n_turns": h["every"], "cache_bust_mode": h["bust"]},
-                               "t1": {"cache": {"enabled": False}}, "t2": {"cache": {"enabled": False}}})
-                tid = i if t["turn_id"] == "seq" else str(i)
+                fresh = eng.cfg(overrides(t))
+                if h.get("cfg_mode", "fresh") == "mutate":
+                    if live_cfg is None:
+                        live_cfg = fresh
+                    else:  # a long-lived config object edited in place (validated values)
+                        for k in ("enabled", "snapshot_every_n_turns", "cache_bust_mode", "churn_cap_edges"):
+                            live_cfg["t4"][k] = fresh["t4"][k]
+                        live_cfg["t4"]["cache"]["enabled"] = fresh["t4"]["cache"]["enabled"]
+                    cfg = live_cfg
+                else:
+                    cfg = fresh
+                every = t.get("every", h["every"])
+                bust = t.get("bust", h["bust"])
+                num = h.get("tid0", 0) + i
+                kind = t["turn_id"]
+                if kind == "same" and tid is not None:
+                    labels.add("turn-id-repeated")
+                elif kind == "label":
+                    tid = f"t{num}"
+                    labels.add("turn-id-label")
+                elif kind == "str":
+                    tid = str(num)
+                else:
+                    tid = num
+                tnum = ref_turn(tid)
                 v0 = eng.state.get("version_etag")
                 logs0 = observe.line_counts(eng.logs())
-                snaps0 = {p: (os.stat(os.path.join(root, "snap", p)).st_mtime_ns, b) for p, b in eng.snaps().items()}
+                snaps0 = _dir_view(snapdir)
                 sd0 = world.store_digest(eng.state["store"])
                 r = eng.turn(t["agent"], t["text"], cfg, tid, world.NOW_MS + i * 1000)
                 if r["exc"] is not None:
@@ -309,6 +724,7 @@ def check_history(h, rec=None):
                 logs1 = observe.line_counts(eng.logs())
                 v1 = eng.state.get("version_etag")
                 new = {k: logs1.get(k, 0) - logs0.get(k, 0) for k in logs1}
+                snaps1 = _dir_view(snapdir)
                 if prev_kill is not None and prev_kill != t["kill"]:
                     toggles += 1
                 prev_kill = t["kill"]
@@ -319,7 +735,6 @@ def check_history(h, rec=None):
                         raise Violation(f"turn {i}: kill switch off but version {v0!r} -> {v1!r}", h, "kill-version")
                     if new.get("t4.jsonl", 0) or new.get("apply.jsonl", 0):
                         raise Violation(f"turn {i}: kill switch off but t4/apply records were emitted {new}", h, "kill-logs")
-                    snaps1 = {p: (os.stat(os.path.join(root, "snap", p)).st_mtime_ns, b) for p, b in eng.snaps().items()}
                     if snaps1 != snaps0:
                         raise Violation(f"turn {i}: kill switch off but snapshot files changed", h, "kill-snapshot")
                     if world.store_digest(eng.state["store"]) != sd0:
@@ -336,10 +751,13 @@ def check_history(h, rec=None):
                                     f"{[x.target_id for x in approved]} -> {[x.target_id for x in t4o.approved_deltas]}", h, "approved-edited")
                 want = [approved] + ([[d] for d in approved] if "raise" in t["batch"] else [])
                 got = [d for _, d in calls_log]
+                if not approved and not got:
+                    got = [[]]  # nothing approved: whether the store sees an empty batch is free
                 if got != want:
-                    raise Violation(f"turn {i}: store received {[[(x.target_id, x.delta) for x in c] for c in got]}, expected batch"
-                                    f"{' + singles' if 'raise' in t['batch'] else ''} of approved "
-                                    f"{[(x.target_id, x.delta) for x in approved]}", h, "store-calls")
+                    raise Violation(f"turn {i}: store received calls of sizes {[len(c) for c in got]}: "
+                                    f"{[[(x.target_id, x.delta) for x in c] for c in got][:10]}, expected batch"
+                                    f"{' + singles' if 'raise' in t['batch'] else ''} of the {len(approved)} approved "
+                                    f"{[(x.target_id, x.delta) for x in approved][:10]}", h, "store-calls")
                 if any(g != "g:surface" for g, _ in calls_log):
                     raise Violation(f"turn {i}: unexpected graph id in store call", h, "store-gid")
                 if v1 != ref_version(v0):
@@ -350,18 +768,70 @@ def check_history(h, rec=None):
                 t4l = json.loads(eng.logs()["t4.jsonl"].splitlines()[-1])
                 if t4l.get("approved") != len(approved):
                     raise Violation(f"turn {i}: t4.jsonl approved={t4l.get('approved')} vs {len(approved)}", h, "t4-log")
+                for name, rec_ in (("t4.jsonl", t4l), ("apply.jsonl", ap)):
+                    if rec_.get("turn") != tid or rec_.get("agent") != t["agent"]:
+                        raise Violation(f"turn {i}: {name} record is labelled turn {rec_.get('turn')!r} agent {rec_.get('agent')!r}, "
+                                        f"the turn is {tid!r} of agent {t['agent']!r}", h, "log-identity")
                 if str(ap.get("version_etag")) != str(v1):
                     raise Violation(f"turn {i}: apply.jsonl version {ap.get('version_etag')!r} vs state {v1!r}", h, "apply-log-version")
-                should = (i % h["every"]) == 0
-                if bool(ap.get("snapshot")) != should:
-                    raise Violation(f"turn {i} cadence {h['every']}: snapshot field {ap.get('snapshot')!r}", h, "cadence")
+                # --- snapshot precisely on the cadence: this agent's file, nothing else, nothing on other turns
+                should = (tnum % every) == 0
+                fname = f"state_{t['agent']}.json"
+                changed = sorted(f for f in set(snaps0) | set(snaps1) if snaps0.get(f) != snaps1.get(f))
+                if bool(ap.get("snapshot")) != should or (should and fname not in changed) or \
+                        not set(changed) <= ({fname, fname + ".meta"} if should else set()):
+                    raise Violation(f"turn {i} (id {tid!r}) cadence {every}: snapshot due={should}, apply.jsonl snapshot field {ap.get('snapshot')!r}, "
+                                    f"snapshot files changed {changed}", h, "cadence")
                 if should:
-                    body = json.loads(eng.snaps()[f"state_{t['agent']}.json"])
-                    if str(body.get("version_etag")) != str(v1) or body.get("turn") != i:
-                        raise Violation(f"turn {i}: snapshot body version/turn {body.get('version_etag')!r}/{body.get('turn')!r}", h, "snapshot-body")
+                    if isinstance(ap.get("snapshot"), str) and os.path.basename(ap["snapshot"]) != fname:  # (only the file it names: path spelling is free)
+                        raise Violation(f"turn {i}: apply.jsonl names snapshot {ap.get('snapshot')!r}, written was {fname}", h, "apply-log-snapshot")
+                    body = json.loads(snaps1[fname][1])
+                    if str(body.get("version_etag")) != str(v1) or body.get("turn") != tnum:
+                        raise Violation(f"turn {i}: snapshot body version/turn {body.get('version_etag')!r}/{body.get('turn')!r}, "
+                                        f"expected {v1!r}/{tnum}", h, "snapshot-body")
+                    got_d = [(x.get("target_kind"), x.get("target_id"), x.get("attr"), x.get("delta")) for x in (body.get("deltas") or [])]
+                    want_d = [(d.target_kind, d.target_id, d.attr, float(d.delta)) for d in approved]
+                    if got_d != want_d:
+                        raise Violation(f"turn {i}: snapshot lists deltas {got_d[:10]}, approved were {want_d[:10]}", h, "snapshot-deltas")
+                    labels.add("snapshot")
+                else:
+                    labels.add("no-snapshot")
+                # --- cache busting as configured FOR THIS TURN, and what the apply record claims about it
+                cm = cur.get("cm_at_apply")
+                inv = ap.get("cache_invalidations")
+                if not calls_log:
+                    pass  # (no store call to observe the manager from; only possible when nothing was approved)
+                elif cm is None:
+                    if inv != 0:
+                        raise Violation(f"turn {i}: no cache manager attached but apply.jsonl cache_invalidations={inv!r}", h, "bust-count")
+                    labels.add("no-cm")
+                else:
+                    size0, size1 = cur["size_at_apply"], int(cm.stats["size"])
+                    x_live = sum(1 for ns_, k in x_keys if cm.get(ns_, k)[0])
+                    if x_live != len(x_keys):
+                        raise Violation(f"turn {i}: namespaces {sorted({n for n, _ in x_keys})} (not configured for busting) lost "
+                                        f"{len(x_keys) - x_live} entries", h, "bust-overreach")
+                    if bust == "on-apply":
+                        removed = size0 - len(x_keys)
+                        if size1 != len(x_keys):
+                            raise Violation(f"turn {i}: cache_bust_mode=on-apply but {size1 - len(x_keys)} of {removed} t2:semantic entries "
+                                            f"survived the commit", h, "bust-missed")
+                        if removed:
+                            labels.add("busted")
+                    else:
+                        removed = 0
+                        if size1 != size0:
+                            raise Violation(f"turn {i}: cache_bust_mode=none but the manager went from {size0} to {size1} entries during apply", h, "bust-overreach")
+                    if inv != removed:
+                        raise Violation(f"turn {i}: apply.jsonl cache_invalidations={inv!r}, {removed} entries were removed", h, "bust-count")
+                    if t.get("cache_enabled") is False:
+                        labels.add("cm-attached+cache-disabled")
                 if "raise" in t["batch"] and approved:
                     store_fail_nonempty = True
+                if len(approved) > 128:
+                    labels.add("approved>128")
         finally:
+            orch.Orchestrator = orig_cls
             if had_delib:
                 orch.t3_deliberate = old_delib
             else:
@@ -374,10 +844,15 @@ def check_history(h, rec=None):
                     delattr(core, "t3_deliberate")
         if rec is not None:
             nt = store_fail_nonempty and toggles >= 1
+            evs = {t.get("every", h["every"]) for t in h["turns"]}
             rec.case(nontrivial=nt, dig=digest(h) if nt else None,
-                     labels=[f"turns={len(h['turns'])}"] + (["store_fail"] if store_fail_nonempty else []) + (["toggle"] if toggles else []),
-                     sample={"every": h["every"], "turns": [{k: t[k] for k in ("agent", "kill", "batch")} | {"n_deltas": len(t["deltas"])}
-                                                            for t in h["turns"]]} if nt else None)
+                     labels=[f"turns={len(h['turns'])}", f"cfg={h.get('cfg_mode', 'fresh')}", f"cm={h.get('cm_mode', 'orch')}",
+                             f"orchestrator={h.get('orch', 'per-turn')}"] +
+                            (["store_fail"] if store_fail_nonempty else []) + (["toggle"] if toggles else []) +
+                            (["cadence-varies"] if len(evs) > 1 else []) + (["weight-range-narrow"] if h.get("wrange") else []) + sorted(labels),
+                     sample={"every": h["every"], "cfg_mode": h.get("cfg_mode"),
+                             "turns": [{k: t[k] for k in ("agent", "kill", "batch")} | {"n_deltas": len(t["deltas"]), "every": t.get("every")}
+                                       for t in h["turns"]]} if nt else None)
 
 
 def sub_history(rec, seed, shard, nshards, n=40, shrink=True):
@@ -392,6 +867,8 @@ def _fix(case):
 SUBCHECKS = [
     Sub("apply", sub_apply, quick={"n": 400}, thorough={"n": 5000}, shards_quick=4, shards_thorough=8,
         replay=lambda c: check_apply(_fix(c), None)),
+    Sub("sequence", sub_sequence, quick={"n": 100}, thorough={"n": 1500}, shards_quick=4, shards_thorough=8,
+        replay=lambda c: check_sequence(_fix(c), None)),
     Sub("history", sub_history, quick={"n": 40}, thorough={"n": 500}, shards_quick=4, shards_thorough=8,
         replay=lambda c: check_history(_fix(c), None)),
 ]
